@@ -112,6 +112,10 @@ def run_tlc(workdir, module, cfg, workers=4, timeout=300, extra=None, heap=None,
     if heap:
         jopts.append("-Xmx" + heap)
     jopts.append("-Xss64m")
+    # TLC unpacks its standard modules into java.io.tmpdir on every run: keep that inside the scratch directory of the check
+    jtmp = os.path.join(workdir, "jtmp")
+    os.makedirs(jtmp, exist_ok=True)
+    jopts.append("-Djava.io.tmpdir=" + jtmp)
     if jopts:
         env["JAVA_TOOL_OPTIONS"] = " ".join(jopts)
     if env_extra:
